@@ -156,6 +156,25 @@ def _direct(R, rng, defn, b, cse, ctx):
                 and np.array_equal(r1.covariance.data, r2.covariance.data)):
             R.add([K.V("process_model:not-idempotent", "two identical process_model calls returned different results",
                        defn=defn, point=pt)])
+        # results belong to the caller: two results never share storage, and feeding a result back in (a
+        # chained prediction) leaves it and every earlier result as they were
+        R.stats.inc("result_retention_checks")
+        if np.shares_memory(r1.covariance.data, r2.covariance.data) or np.shares_memory(r1.state.data, r2.state.data):
+            R.add([K.V("process_model:results-share-storage", "the results of two process_model calls share storage",
+                       defn=defn, point=pt)])
+        else:
+            x1, P1 = r1.state.data.copy(), r1.covariance.data.copy()
+            x2, P2 = r2.state.data.copy(), r2.covariance.data.copy()
+            try:
+                if abs(dt) <= 1.0 and np.all(np.isfinite(P1)) and float(np.max(np.abs(P1), initial=0.0)) < 1e6:
+                    ekf.process_model(dt, r1.state, r1.covariance, ct)
+                    if not (np.array_equal(r1.state.data, x1) and np.array_equal(r1.covariance.data, P1)
+                            and np.array_equal(r2.state.data, x2) and np.array_equal(r2.covariance.data, P2)):
+                        R.add([K.V("process_model:earlier-result-changed",
+                                   "an estimate returned by an earlier process_model call changed when it was fed back in",
+                                   defn=defn, point=pt)])
+            except (AssertionError, np.linalg.LinAlgError, FloatingPointError, OverflowError):
+                R.stats.inc("chained_step_left_valid_region")
         if not R.samples:
             R.samples.append({"kind": "direct", "definition": K.brief_defn(defn), "point": pt,
                               "covariance_in": P.tolist(),
